@@ -177,6 +177,7 @@ pub fn cmd_hir(args: &[String]) {
     let prof = match profile.as_str() {
         "safe" => Profile::safe(),
         "wild" => Profile::wild(),
+        "tame" => Profile::tame(),
         _ => Profile::rich(),
     };
     let mut cases = std::io::BufWriter::new(std::fs::File::create(format!("{}/hcases_{}.txt", out, shard)).unwrap());
